@@ -133,8 +133,18 @@ impl<'a> Sess<'a> {
             self.evs.push(json!({"ev": "Pub", "url": ui, "ids": identify(&d, lang, self.tab), "n": d.as_array().map(|a| a.len()).unwrap_or(0), "handler": self.ls.handlers[h].label}));
         }
     }
+    /// the client's settings change but no notification is sent: the server finds out when it next asks
+    fn silent_config(&mut self, cfg_id: &str) {
+        self.seq += 1;
+        let want = CONFIGS.iter().position(|c| c.0 == cfg_id).unwrap_or(0);
+        let (cid, linters, dialect) = CONFIGS[want];
+        self.ls.settings = crate::ls::settings_for(&self.dir, serde_json::from_str(linters).unwrap(), dialect);
+        self.evs.push(json!({"ev": "Recv", "seq": self.seq, "kind": "silentcfg", "url": 0, "text": "", "cfg": cid}));
+        self.evs.push(json!({"ev": "Quiescent", "overlap": false}));
+    }
     /// run one message alone, to quiescence
     fn sequential(&mut self, m: &Msg) {
+        if m.kind == "silentcfg" { let c = m.text.clone(); self.silent_config(&c); return; }
         let from = self.ls.publishes.len();
         let h = self.submit(m);
         let ok = self.ls.run_to_completion(h, Duration::from_secs(20));
@@ -230,6 +240,14 @@ pub fn main(a: &Args) {
             run(&[m("open", u, "A"), m("change", u, "B"), m("change", u, "C"), m("change", u, "C")], &[], &[], &[], &mut out);
             run(&[m("open", u, "A"), m("save", u, ""), m("change", u, "B"), m("adduser", u, ""), m("change", u, "A")], &[], &[], &[], &mut out);
             run(&[m("open", u, "A"), m("config", u, "c1"), m("change", u, "B"), m("config", u, "c0"), m("close", u, ""), m("open", u, "B")], &[], &[], &[], &mut out);
+        }
+        // (1g) the settings change silently, a document update makes the server pull them, and only then the change
+        // is announced (with the very settings the server already holds)
+        for u in [0usize, 1, 3] {
+            for c in ["c3", "c1", "c2"] {
+                run(&[m("open", u, "A"), m("silentcfg", u, c), m("change", u, "B"), m("config", u, c)], &[], &[], &[], &mut out);
+                run(&[m("open", u, "A"), m("open", (u + 1) % 2, "C"), m("silentcfg", u, c), m("change", (u + 1) % 2, "D"), m("config", u, c), m("change", u, "B")], &[], &[], &[], &mut out);
+            }
         }
         // (1e) a very long document: open short, grow long, shrink again; open long; configuration change while long
         for u in [0usize, 2].into_iter().take(a.num("long-docs", 1) as usize) {
